@@ -111,7 +111,9 @@ def run(vh, st, tcfg, sdir, seed, goenv):
         idx = [i for i, x in enumerate(lines) if ('"ev":"%s"' % st["corrupt_event"]) in x]
         k = idx[len(idx) // 2]
         e = json.loads(lines[k])
-        if st.get("corrupt_path"):
+        if st.get("corrupt_bool"):
+            e[st["corrupt_bool"]] = not e[st["corrupt_bool"]]
+        elif st.get("corrupt_path"):
             x = e
             for kk in st["corrupt_path"][:-1]:
                 x = x[kk]
